@@ -103,6 +103,8 @@ def build_init(ck, T):
         S.oblige('init', not out.raised('AttributeError'), finding=F_INIT,
                  tag='no-field-read-before-assignment' + ('' if outs is None else '-explicit-out-structure'))
         if out.raised('AttributeError'):
+            # (listed finding) — still: arguments that must be refused never get as far as inferring the structure
+            S.oblige('exc', z_not(refused), tag='illegal-arguments-are-refused-before-the-output-structure-is-inferred')
             return
         if out.raised('TypeError'):
             # a rank-0 ShapeDtypeStruct has no len(): `out_structure or ...` raises
